@@ -7,6 +7,10 @@ MODULES = {
     "C04": ["contracts.externals", "contracts.ash"],
     "C05": ["contracts.externals", "contracts.ash"],
     "C01": ["contracts.externals", "contracts.ash", "contracts.ash_wire"],
+    "C11": ["contracts.externals", "contracts.ash", "contracts.ash_wire", "contracts.uart"],
+    "C10": ["contracts.externals", "contracts.ash", "contracts.ash_wire", "contracts.uart", "contracts.ezsp_protocol", "contracts.ezsp"],
+    "C06": ["contracts.externals", "contracts.ezsp_protocol", "contracts.ezsp"],
+    "C08": ["contracts.externals", "contracts.ezsp_protocol", "contracts.ezsp"],
     "C03": ["contracts.externals", "contracts.ash", "contracts.ash_wire"],
 }
 
